@@ -690,7 +690,18 @@ let () =
            let m = match C19BoxModel.encode_seq false ts with
              | Base.Ok bs ->
                let sz = L.fold_left (fun a t -> a + int_of_n (C19BoxModel.size_box t)) 0 ts in
-               Printf.sprintf "%d|%s" sz (hex_of_str bs)
+               (* MvexBox.GetTrex on the DECODED init, for every track id of the built one (C19FragModel.get_trex) *)
+               let tx = if s.traks = [] then "" else
+                   match C19BoxModel.decode_file bs with
+                   | Base.Ok ts' ->
+                     S.concat "," (L.map (fun t ->
+                         match C19FragModel.get_trex ts' t.tk_id, C19FragModel.get_trex_dsdi ts' t.tk_id with
+                         | Some x, Some d ->
+                           Printf.sprintf "%s:%s:%s:%s:%s" (si x.C05Model.tx_track) (si d) (si x.C05Model.tx_ddur)
+                             (si x.C05Model.tx_dsize) (si x.C05Model.tx_dflags)
+                         | _, _ -> "none") s.traks)
+                   | _ -> "DECERR" in
+               Printf.sprintf "%d|%s|%s" sz (hex_of_str bs) tx
              | _ -> "ENCERR" in
            if m <> obs then Printf.printf "MISMATCH %s model=%s\n" id (if S.length m > 3000 then S.sub m 0 3000 else m)
            else if not (C19TreeModel.roundtrip_ok s) then Printf.printf "MISMATCH %s model=roundtrip_ok-false\n" id
